@@ -2,14 +2,16 @@
 """mutsave.py <PROP> <mN> <caught-by text> : archive a confirmed seeded change under /verif/seeded/."""
 import json, os, shutil, sys
 prop, m, caught = sys.argv[1], sys.argv[2], sys.argv[3]
-src = "/tmp/mut/%s/_out/%s" % (prop, m)
+checks = sys.argv[4].split(",") if len(sys.argv) > 4 else [prop]
+r2 = m.startswith("r2")
+src = "/tmp/mut/%s/%s/%s" % (prop, "_out2" if r2 else "_out", m[2:] if r2 else m)
 dst = "/verif/seeded/%s-%s" % (prop, m)
 os.makedirs(dst, exist_ok=True)
 for f in os.listdir(src):
     shutil.copy(os.path.join(src, f), dst)
 confirm = open("/var/tmp/mutout/%s-%s/confirm.txt" % (prop, m)).read().strip().splitlines()
 meta = {"property": prop, "needs_to_manifest": open(os.path.join(src, "meta.txt")).read().strip(),
-        "confirmed": confirm[0] if confirm else "", "checks_run": confirm[1:], "caught_by": caught,
+        "confirmed": confirm[0] if confirm else "", "checks_run": confirm[1:], "caught_by": caught, "checks": checks,
         "how_run": "tools/muteval.sh %s <mutant dir> <scratch worktree> <checks> (patch applied in a scratch worktree, VERIF_REPO pointing at it; /repo untouched)" % prop}
 json.dump(meta, open(os.path.join(dst, "meta.json"), "w"), indent=1)
 print("saved", dst)
